@@ -49,7 +49,7 @@ def gen_leeways(rng, ref):
 
 
 def generate(rng, tier):
-    world = gen_world(rng, kinds=("space", "space", "discrete", "line", "grid"))
+    world = gen_world(rng, kinds=("space", "space", "discrete", "line", "grid"), subunit=0.12)
     ref = RefWorld(world)
     n = rng.randint(0, 8)
     ops = []
